@@ -96,7 +96,7 @@ theorem toascii_label_bounded (bytes : List Nat) (b : Buf) (h : b.out.length ≤
   exact ⟨he.1, he.2.1, he.1 ▸ he.2.2 h⟩
 
 /-- the only results: a length, UV_EINVAL, UV_E2BIG (32-bit overflow of `delta`), or the model's
-    out-of-fuel marker (which the correspondence check would expose; it never occurred) -/
+    out-of-fuel marker (excluded by `toascii_fuel_suffices` below for byte strings < 2^32) -/
 theorem toascii_result_codes (s : List Nat) (cap : Nat) :
     0 ≤ (toascii s cap).1 ∨ (toascii s cap).1 = UV_EINVAL ∨ (toascii s cap).1 = UV_E2BIG ∨
       (toascii s cap).1 = FUEL_OUT := by
@@ -105,26 +105,34 @@ theorem toascii_result_codes (s : List Nat) (cap : Nat) :
   · right; left; rfl
   · exact scan_rc _ _ _
 
-/-- NOT PROVED (kept visible): "UV_EINVAL exactly when it does not fit" as monotonicity in the
-    destination size — if the conversion succeeds with `n` bytes in a destination of `cap'` bytes,
-    then every destination of at least `n` bytes gives the same bytes and `n`, and every smaller one
-    gives UV_EINVAL.  What is proved above: success ⇒ the NUL is inside and `rc` = bytes stored;
-    nothing is ever stored at or past `de`.  Missing: a two-run simulation argument
-    (`out_small = out_large.take cap`) through all loops.  The correspondence check runs every
-    destination size 0..needed+2 on model and implementation, and the Python monitor demands
-    UV_EINVAL for every size below the reference length + 1. -/
-def toascii_fits_iff_statement : Prop :=
-  ∀ (s : List Nat) (cap cap' : Nat), 0 ≤ (toascii s cap').1 →
-    (((toascii s cap').1 ≤ (cap : Int) → (toascii s cap).1 = (toascii s cap').1 ∧
+/-- `toascii_bounded`, second half — "UV_EINVAL when it does not fit": the outcome depends on the
+    destination size only through "does the result fit".  If the conversion succeeds with `n` bytes
+    (NUL included) in a destination of `cap'` bytes, then every destination of at least `n` bytes
+    receives exactly the same bytes and returns `n`, and every destination of fewer than `n` bytes
+    returns UV_EINVAL.  (Proof: two-run simulation, the small destination always holds
+    `take cap` of what the large one holds — `scan_sim` in TextLemmas.) -/
+theorem toascii_fits_iff (s : List Nat) (cap cap' : Nat) (h : 0 ≤ (toascii s cap').1) :
+    ((toascii s cap').1 ≤ (cap : Int) → (toascii s cap).1 = (toascii s cap').1 ∧
         (toascii s cap).2.out = (toascii s cap').2.out) ∧
-     ((cap : Int) < (toascii s cap').1 → (toascii s cap).1 = UV_EINVAL))
+    ((cap : Int) < (toascii s cap').1 → (toascii s cap).1 = UV_EINVAL) :=
+  toascii_fits s cap cap' h
 
-/-- NOT PROVED (kept visible): the outer Punycode loop never runs out of the model's fuel
-    (`cps.length + 1` passes; every pass encodes at least one code point when there are fewer than
-    2^32 of them).  `FUEL_OUT` is a distinct result that the C code cannot produce, so any such case
-    would show up as a model ≠ implementation difference; none occurred. -/
-def toascii_fuel_suffices_statement : Prop :=
-  ∀ (s : List Nat) (cap : Nat), s.length < 4294967296 → (toascii s cap).1 ≠ FUEL_OUT
+/-- Fuel suffices: the model's outer Punycode loop is given `len + 1` passes; every pass encodes at
+    least one of the remaining code points (`todo` = number of code points `≥ n`, strictly
+    decreasing), so for every byte string shorter than 2^32 the out-of-fuel marker is never the
+    result — the model's `while (todo > 0)` is the C loop. -/
+theorem toascii_fuel_suffices (s : List Nat) (cap : Nat) (hb : Bytes s) (hlen : s.length < 4294967296) :
+    (toascii s cap).1 ≠ FUEL_OUT :=
+  toascii_no_fuel s cap hb hlen
+
+/-- hence the only results are a length, UV_EINVAL and UV_E2BIG -/
+theorem toascii_result_codes_exact (s : List Nat) (cap : Nat) (hb : Bytes s) (hlen : s.length < 4294967296) :
+    0 ≤ (toascii s cap).1 ∨ (toascii s cap).1 = UV_EINVAL ∨ (toascii s cap).1 = UV_E2BIG := by
+  rcases toascii_result_codes s cap with h | h | h | h
+  · exact Or.inl h
+  · exact Or.inr (Or.inl h)
+  · exact Or.inr (Or.inr h)
+  · exact absurd h (toascii_fuel_suffices s cap hb hlen)
 
 /-- a destination too small for even the terminator is UV_EINVAL -/
 example : (toascii [0x61] 1).1 = UV_EINVAL ∧ (toascii [0x61] 2) = (2, { out := [0x61, 0], cap := 2 }) := by
